@@ -25,8 +25,8 @@ def scen_decision(ch, params, out):
     from json_to_models.generator import MetadataGenerator
     from json_to_models.registry import ModelRegistry
     from vflib import oracles
-    position = ch.choose("position", ["top_level_sample", "field_value", "list_element", "field_of_nested_model", "dict_value_of_listed_field"],
-                         shard=True)
+    position = ch.choose("position", ["top_level_sample", "field_value", "list_element", "field_of_nested_model", "dict_value_of_listed_field",
+                                      "same_keys_under_listed_and_unlisted_field", "same_keys_unlisted_field_first"], shard=True)
     nkeys = ch.pick("number_of_keys", 4)
     nregex = ch.pick("number_of_regexes", 3)
     listed = ch.flag("field_name_listed")
@@ -43,6 +43,10 @@ def scen_decision(ch, params, out):
         sample = {"fix": 1, fname: obj}
     elif position == "list_element":
         sample = {"fix": 1, fname: [obj]}
+    elif position == "same_keys_under_listed_and_unlisted_field":
+        sample = {"fix": 1, fname: dict(obj), "elsewhere": dict(obj)}
+    elif position == "same_keys_unlisted_field_first":
+        sample = {"fix": 1, "elsewhere": dict(obj), fname: dict(obj)}
     elif position == "field_of_nested_model":
         sample = {"fix": 1, "outerobj": {"anchor": 1, "anchor2": 2, fname: obj}}
     else:
@@ -70,7 +74,16 @@ def scen_decision(ch, params, out):
     if position == "top_level_sample":
         out.check(isinstance(ir, dict) and set(ir) == set(keys), "top_level_not_a_model", lambda: f"{ir} ({ctx()})", "top_level_not_a_model")
         return
-    if position == "field_value":
+    if position.startswith("same_keys"):
+        # the two objects are judged independently: the field-name option applies to `payload` only
+        t2 = ir["elsewhere"]
+        exp2 = (not keys) or all_match(keys)
+        out.check(isinstance(t2, DDict) == exp2, "object_not_dict" if exp2 else "object_not_model",
+                  lambda: f"field 'elsewhere' (same keys as the listed field): expected {'Dict' if exp2 else 'a model'}, inferred {t2} ({ctx()})",
+                  ("object_not_dict" if exp2 else "object_not_model") + ":elsewhere")
+        t = ir[fname]
+        expect_dict = (not keys) or listed or all_match(keys)
+    elif position == "field_value":
         t = ir[fname]
         expect_dict = (not keys) or listed or all_match(keys)
     elif position == "list_element":
@@ -116,7 +129,7 @@ def scen_decision(ch, params, out):
     for m in reg.models:
         if m.name == "Root":
             continue
-        if expect_dict and position in ("field_value", "list_element"):
+        if expect_dict and position in ("field_value", "list_element") :
             out.check(set(m.type.keys()) != set(keys) or not keys, "class_generated_for_mapping",
                       lambda: f"model with keys {list(m.type)} registered although the object is a mapping ({ctx()})", "class_generated_for_mapping")
 
@@ -189,10 +202,10 @@ def scen_cli(ch, params, out):
 
 def parts(tier):
     if tier == "quick":
-        return [CH("decision", "vflib.props.c13:scen_decision", {}, shards=5, timeout=170, path_timeout=30, mode="CH-P"),
+        return [CH("decision", "vflib.props.c13:scen_decision", {}, shards=7, timeout=170, path_timeout=30, mode="CH-P"),
                 CH("cli", "vflib.props.c13:scen_cli", {}, shards=16, timeout=170, path_timeout=30)]
-    return [CH("decision", "vflib.props.c13:scen_decision", {}, shards=5, timeout=900, path_timeout=30, mode="CH-P"),
-            CH("cli", "vflib.props.c13:scen_cli", {}, shards=16, timeout=900, path_timeout=30)]
+    return [CH("decision", "vflib.props.c13:scen_decision", {}, shards=7, timeout=400, path_timeout=30, mode="CH-P"),
+            CH("cli", "vflib.props.c13:scen_cli", {}, shards=16, timeout=400, path_timeout=30)]
 
 
 META = {
